@@ -39,7 +39,7 @@ def _capture():
     for name in ('stat', 'lstat', 'listdir', 'scandir', 'mkdir', 'rmdir', 'remove', 'unlink', 'rename',
                  'replace', 'link', 'symlink', 'readlink', 'chmod', 'utime', 'open', 'fdopen', 'close',
                  'fstat', 'getpid', 'access', 'read', 'write', 'makedirs', 'fchmod', 'fsync', 'fdatasync', 'ftruncate',
-                 'lseek', 'truncate'):
+                 'lseek', 'truncate', 'pwrite', 'pread'):
         _REAL['os.' + name] = getattr(os, name)
     _REAL['builtins.open'] = builtins.open
     _REAL['io.open'] = io.open
@@ -270,6 +270,8 @@ class World(object):
         P(os, 'ftruncate', fdop('ftruncate', fs.fd_truncate))
         P(os, 'lseek', fdop('lseek', fs.fd_seek))
         P(os, 'truncate', os_truncate)
+        P(os, 'pwrite', fdop('pwrite', fs.fd_pwrite))
+        P(os, 'pread', fdop('pread', fs.fd_pread))
         P(os, 'getpid', os_getpid)
         P(builtins, 'open', py_open)
         P(io, 'open', py_open)
